@@ -27,3 +27,16 @@ pub(crate) fn type_info_stub(
     &**b as *const TypeInfo
 }
 
+
+/// mark bit of a heap object, for harnesses that live in other modules (`header` is private to gc.rs)
+pub(crate) fn is_marked<T: ?Sized>(p: &GcPtr<T>) -> bool {
+    p.header().marked.get()
+}
+
+/// `Generation`'s field is private to gc.rs
+pub(crate) fn generation_of(g: i32) -> Generation {
+    Generation(g)
+}
+pub(crate) fn generation_number(g: Generation) -> i32 {
+    g.0
+}
